@@ -58,6 +58,7 @@ def parseQ (s : String) : Option Qry :=
   | "W", some n => some (.vExt (n / 100) (n % 100))
   | "M", some n => some (.qMap (n / 10) (n % 10))
   | "S", some n => some (.qShared n)
+  | "U", some n => some (.qSpelled n)
   | "FA", some n => some (.fAll n)
   | "JA", some n => some (.fAll n)
   | "FO", some n => some (.fAny n)
